@@ -90,3 +90,36 @@ def replay(path):
     print("implementation now:", A.parse_impl(out.get("r")))
     print("reference:", r.get("reference"))
     return 0
+
+
+def corpus_leg(chk, prop):
+    """Replay the demonstration programs of the seeded changes of this property (corpus/seed_demos.json
+    — minimized past failures, kept as the guidance recommends): implementation vs Model on each."""
+    import posixpath
+    corp = [e for e in json.load(open(f"{C.VERIF}/corpus/seed_demos.json")) if e["prop"] == prop]
+    lines = []
+    for i, e in enumerate(corp):
+        fm = {p: bytes.fromhex(h) for p, h in e["files"].items()}
+        dirs = {"/w"}
+        for p in fm:
+            d = posixpath.dirname(p)
+            while d not in ("/", ""):
+                dirs.add(d)
+                d = posixpath.dirname(d)
+        search = [s for s in e["search"] if posixpath.normpath(posixpath.join("/w", s)) in dirs]
+        lines.append(A.case_line(f"k{i}", e["arch"], fm, root=e["root"], cwd="/w", search=search, dirs=sorted(dirs)))
+    if not lines:
+        return 0
+    impl, model = A.run_both(lines)
+    for i, e in enumerate(corp):
+        im = A.parse_impl(impl.get(f"k{i}"))
+        mo = A.parse_model(model.get(f"k{i}"))
+        chk.evaluations += 1
+        chk.distinct.add(("corpus", e["seed"], e["arch"], e["root"]))
+        if im["kind"] in ("CRASH", "ABORT", "MISSING"):
+            chk.violation(f"corpus-crash:{e['seed']}", f"the assembler crashed on the demonstration program of seeded change {e['seed']} ({e['root']}, {e['arch']}): {im.get('msg', '')[-160:]}",
+                          {"arch": e["arch"], "root": e["root"], "files": e["files"], "seed": e["seed"]})
+        elif not A.agree(im, mo):
+            chk.disagreements.append({"what": f"corpus program of {e['seed']} ({e['root']}, {e['arch']})", "impl": str(im)[:200], "model": str(mo)[:200]})
+    chk.coverage["corpus_programs"] = len(corp)
+    return len(corp)
